@@ -27,7 +27,7 @@ def _case(name, mode, rnd):
 
 
 def _emit_table(run, isa):
-    out = os.path.join(tlc.WORK, "c12-%s.ndjson" % isa)
+    out = os.path.join(tlc.WORK, "c12-%s-%d.ndjson" % (isa, os.getpid()))
     os.makedirs(tlc.WORK, exist_ok=True)
     if os.path.exists(out):
         os.unlink(out)
